@@ -10,7 +10,7 @@ RULE = ("bundled examples (executables, shared objects, relocatables, kernel mod
         "every segment (type, flags, addresses, memory size) must be unchanged and every section byte of a loadable segment must be "
         "found at the same virtual address. Non-trivial = the image has at least one segment with member sections.")
 ASSUMPTIONS = ["well-formed image whose segment contents are covered by sections", "edits only add sections or append to sections outside segments"]
-KEEP_PREFIX = 2
+KEEP_PREFIX = 7
 NO_SHRINK = True
 
 
@@ -160,8 +160,16 @@ def generate(rng, tier):
         if notes:
             i = notes[0]
             edits.append(("noteadd", ["notenew 0 sec %d" % i, "noteadd 0 7 %s %s" % (hx(b"VERIF"), hx(b"\1\2\3\4\5"))], [i], 0))
-        for ename, ops, touched, added in edits:
-            lines = ["ctor plain", "load str 0 " + arg, "obsall"] + ops + ["save"]
+        for en, (ename, ops, touched, added) in enumerate(edits):
+            # the image is loaded eagerly from a stream, lazily from a stream, or lazily by file name; the observation
+            # before the save is made only for eager loads (it would fetch everything), the comparison uses the image
+            mode = ["str 0", "str 1", "file 1"][(len(cases) + en) % 3]
+            if mode == "str 0":
+                lines = ["ctor plain", "load str 0 " + arg, "obsall"] + ops + ["save"]
+            else:
+                # the reference observation is made on a second, eagerly loaded object, so that nothing has been
+                # fetched from the lazily loaded one when it is edited and saved
+                lines = ["obj 0", "ctor plain", "load str 0 " + arg, "obsall", "obj 1", "ctor plain", "load %s %s" % (mode, arg)] + ops + ["save"]
             cases.append(Case("%s_%s" % (name.replace(".", "_"), ename), lines,
                               {"first": True, "touched": touched, "added": added, "edit": ename, "has_seg": bool(segd)}))
     return cases
